@@ -1,39 +1,48 @@
 """C16 - the exported-object tree seen remotely is exactly what was exported.
 Correspondence + oracle harness.
 
-A real `DBusObjectHandler` sits on a recording fake connection.  A history of
-exportObject / unexportObject calls is applied step by step; after EVERY step EVERY path of the
-query set (the universe plus non-exported neighbours) is
+A real `DBusObjectHandler` sits on a recording fake connection (and, in one stream, inside a real
+`DBusClientConnection` on a recording transport).  A history of exportObject / unexportObject calls
+is applied step by step; after EVERY step EVERY path of the query set (the universe plus
+non-exported neighbours) is
 
   * introspected (org.freedesktop.DBus.Introspectable.Introspect),
   * asked for org.freedesktop.DBus.ObjectManager.GetManagedObjects,
   * called with an ordinary method (org.verif.Id.whoami),
 
-each as a marshalled-and-parsed MethodCallMessage through `handleMethodCallMessage`; the reply is
-taken from the connection, marshalled form parsed back (what a remote peer would see), XML parsed
-with xml.etree.  Two independent judgements per observation:
+and, for a rotating part of the paths, called without interface, with members that do not exist
+or that are NAMED like a built-in (`org.verif.Id.Ping`, `.Introspect`, `.GetManagedObjects`,
+`Peer.Introspect` ...) and pinged - each as a marshalled-and-parsed MethodCallMessage through
+`handleMethodCallMessage`; the reply is taken from the connection, its marshalled form parsed back
+(what a remote peer would see), XML parsed with xml.etree.  Two independent judgements:
 
-  S3  the Lean model (lean/TxdbusModel/Obj/Tree.lean through drv_c16) must print the same line;
+  S3  the Lean model (lean/TxdbusModel/Obj/Tree.lean through drv_c16) must print the same line
+      (compared order-insensitively, without error texts and exception types);
   S4  the oracle `judge_*` below, written from the property statement on paths as element lists
       (split on '/'), using only the harness's own bookkeeping of what was exported.
 """
 import xml.etree.ElementTree as ET
 
-STREAMS = ['history-fixed-universe', 'history-random-universe', 'history-enumerated']
-THEOREMS = ['exports_eq_spec', 'children_eq_spec', 'introspect_fails_iff_nothing_there',
-            'managed_eq_spec', 'unknown_object_iff_not_exported', 'export_signals',
-            'strictlyBelow_iff_text', 'orig_introspect_root_lists_empty_child',
-            'orig_managed_reports_prefix_sibling']
+STREAMS = ['history-fixed-universe', 'history-random-universe', 'history-enumerated', 'history-client-connection']
+THEOREMS = ['exports_eq_spec', 'children_eq_spec', 'children_nil_iff', 'introspect_fails_iff_nothing_there',
+            'interface_names_complete', 'interface_dict_complete', 'table_objects_sendable',
+            'managed_eq_spec_partial', 'classify_ordinary_iff', 'unknown_object_iff_not_exported',
+            'ping_answered_everywhere', 'export_signals', 'strictlyBelow_iff_text', 'parse_render_inverse',
+            'objectPath_alphabet_eq_source', 'orig_introspect_root_lists_empty_child',
+            'orig_managed_reports_prefix_sibling', 'orig_failed_export_stays_visible']
 TRUSTED_BASE = [
     'Python str.startswith/endswith/partition/slicing, sorted() on str, dict insertion order and key '
     'overwrite (mirrored in Obj/Tree.lean, validated by the streams)',
-    'objects are abstract in the model: a path, interface names, an opaque payload for the readable '
-    'properties (property access itself is C17; interface XML is C15)',
+    'objects are abstract in the model: a path, interfaces with an opaque token for getAllProperties(iface), '
+    'a flag "its readable properties can be marshalled"; what getAllProperties returns is C17, interface XML is C15',
     'xml.etree as the remote reader of the introspection document',
 ]
 ASSUMPTIONS = [
     'every exported object reports a valid object path (DBusObject.__init__ validates it) and reports the '
     'same path and interfaces every time it is asked',
+    'the readable property values of an object do not turn unmarshallable while it is exported (an object whose '
+    'values cannot be sent at export time is generated: its export must fail without effect; a value going bad '
+    'later makes GetManagedObjects answer Error.Failed - C10 - and is not generated)',
     'one handler, calls arrive one at a time (no re-entrancy from inside exported methods)',
 ]
 RULE = ('a case is one history (universe of paths, list of export/unexport calls with the exported class and '
@@ -41,10 +50,10 @@ RULE = ('a case is one history (universe of paths, list of export/unexport calls
         'of (universe, ops); non-trivial = at least one export and one query answered from a non-empty table')
 
 ID_IFACE = 'org.verif.Id'
-PROPS_IFACE = 'org.freedesktop.DBus.Properties'
 BUILTIN = ['org.freedesktop.DBus.Introspectable', 'org.freedesktop.DBus.Peer',
            'org.freedesktop.DBus.ObjectManager']
 UNKNOWN_OBJECT = 'org.freedesktop.DBus.Error.UnknownObject'
+FAILED = 'org.freedesktop.DBus.Error.Failed'
 
 # --------------------------------------------------------------------------- classes under export
 _CLASSES = {}
@@ -52,7 +61,7 @@ _CLASSES = {}
 
 def classes():
     """DBusObject subclasses built by the harness (after the pipeline selected the repository).
-    kind -> (class, interface names in getInterfaces() order, {iface: [readable property names]})"""
+    kind -> (class, names of the interfaces the harness DECLARED for it, {iface: [readable property names]})"""
     import txdbus
     key = txdbus.__file__
     if key in _CLASSES:
@@ -138,18 +147,18 @@ def classes():
         def __bool__(self):
             return False
 
-    id_props = {ID_IFACE: ['ident'], PROPS_IFACE: []}
+    id_props = {ID_IFACE: ['ident']}
     a_props = {'org.verif.A': ['label', 'level']}
     b_props = {'org.verif.B': ['count']}
     out = {
-        'Base': (Base, [ID_IFACE, PROPS_IFACE], dict(id_props)),
-        'KA': (KA, ['org.verif.A', ID_IFACE, PROPS_IFACE], dict(id_props, **a_props)),
-        'KAB': (KAB, ['org.verif.A', 'org.verif.B', ID_IFACE, PROPS_IFACE], dict(id_props, **a_props, **b_props)),
-        'KABC': (KABC, ['org.verif.sub.C', 'org.verif.A', 'org.verif.B', ID_IFACE, PROPS_IFACE],
+        'Base': (Base, [ID_IFACE], dict(id_props)),
+        'KA': (KA, ['org.verif.A', ID_IFACE], dict(id_props, **a_props)),
+        'KAB': (KAB, ['org.verif.A', 'org.verif.B', ID_IFACE], dict(id_props, **a_props, **b_props)),
+        'KABC': (KABC, ['org.verif.sub.C', 'org.verif.A', 'org.verif.B', ID_IFACE],
                  dict(id_props, **a_props, **b_props, **{'org.verif.sub.C': []})),
-        'KDup': (KDup, ['org.verif.A', 'org.verif.A', ID_IFACE, PROPS_IFACE], dict(id_props, **a_props)),
-        'KLen': (KLen, ['org.verif.A', ID_IFACE, PROPS_IFACE], dict(id_props, **a_props)),
-        'KFalse': (KFalse, [ID_IFACE, PROPS_IFACE], dict(id_props)),
+        'KDup': (KDup, ['org.verif.A', ID_IFACE], dict(id_props, **a_props)),
+        'KLen': (KLen, ['org.verif.A', ID_IFACE], dict(id_props, **a_props)),
+        'KFalse': (KFalse, [ID_IFACE], dict(id_props)),
     }
     _CLASSES[key] = out
     return out
@@ -157,12 +166,29 @@ def classes():
 
 KINDS = ['Base', 'KA', 'KAB', 'KABC', 'KDup', 'KLen', 'KLen', 'KFalse']
 
+# declared type of each property the harness declares (its own description, for "can this value be sent")
+PROP_TYPES = {'ident': 'u', 'label': 's', 'level': 'i', 'count': 'x'}
+INT_RANGE = {'u': (0, 2 ** 32 - 1), 'i': (-2 ** 31, 2 ** 31 - 1), 'x': (-2 ** 63, 2 ** 63 - 1)}
+
+
+def value_fits(sig, v):
+    """Can `v` travel as a DBus value of type `sig`?  (DBus specification, not txdbus.)"""
+    if sig == 's':
+        return isinstance(v, str) and '\0' not in v and not any(0xD800 <= ord(c) <= 0xDFFF for c in v)
+    lo, hi = INT_RANGE[sig]
+    return isinstance(v, int) and not isinstance(v, bool) and lo <= v <= hi
+
 
 def expected_props(kind, ident, vals):
-    """{iface: {readable property: value}} of an object, from the harness's own description."""
+    """{declared iface: {readable property: value}} of an object, from the harness's own description."""
     _, _, readable = classes()[kind]
     allv = dict(vals, ident=ident)
     return {i: {p: allv[p] for p in ps} for i, ps in readable.items()}
+
+
+def sendable(kind, ident, vals):
+    """All readable property values of the object fit their declared types."""
+    return all(value_fits(PROP_TYPES[p], v) for d in expected_props(kind, ident, vals).values() for p, v in d.items())
 
 
 class FakeConn:
@@ -173,11 +199,35 @@ class FakeConn:
         self.sent = []
 
     def sendMessage(self, msg):
-        self.sent.append(msg)
+        self.sent.append(msg.rawMessage)
 
     def take(self):
         out, self.sent = self.sent, []
         return out
+
+
+class RecTransport:
+    """Transport of the client-connection stream: every write is one marshalled message."""
+    def __init__(self):
+        self.chunks = []
+
+    def write(self, data):
+        self.chunks.append(bytes(data))
+
+    def loseConnection(self):
+        pass
+
+    def take(self):
+        out, self.chunks = self.chunks, []
+        return out
+
+
+class FakeFactory:
+    def _ok(self, proto):
+        pass
+
+    def _failed(self, err):
+        pass
 
 
 # --------------------------------------------------------------------------- text encoding (driver protocol)
@@ -204,67 +254,104 @@ def plain(v):
     return v
 
 
+_IFACE_NO = {}
+
+
+def iface_no(name):
+    if name not in _IFACE_NO:
+        _IFACE_NO[name] = len(_IFACE_NO) + 1
+    return _IFACE_NO[name]
+
+
+def token(ident, name):
+    """The model's opaque token for `getAllProperties(name)` of object `ident`."""
+    return ident * 64 + iface_no(name)
+
+
 # --------------------------------------------------------------------------- one scenario on the real code
 class World:
     """Real handler + the harness's bookkeeping of what the calls so far imply."""
 
-    def __init__(self):
+    def __init__(self, client=False):
         from txdbus import objects
-        self.conn = FakeConn()
-        self.h = objects.DBusObjectHandler(self.conn)
-        self.registry = {}      # ident -> (kind, path, expected props)
-        self.objs = {}          # ident -> the exported instance
+        self.client = client
+        if client:
+            from txdbus import client as cl
+            self.proto = cl.DBusClientConnection()
+            self.proto.transport = RecTransport()
+            self.proto.factory = FakeFactory()
+            self.proto._receivedFDs = []
+            self.proto.connectionAuthenticated()        # creates the object handler, sends Hello
+            self.proto.busName = FakeConn.busName
+            self.proto.transport.take()
+            self.h = self.proto.objHandler
+            self.api = self.proto
+            self.take = self.proto.transport.take
+        else:
+            self.conn = FakeConn()
+            self.h = objects.DBusObjectHandler(self.conn)
+            self.api = self.h
+            self.take = self.conn.take
+        self.registry = {}      # ident -> (kind, path, expected props of declared ifaces, names from getInterfaces())
+        self.objs = {}          # ident -> the instance
         self.exported = {}      # path -> ident        (bookkeeping from the calls alone)
         self.next_ident = 1
-        self.serial = 100
+        self.tainted = False    # a defect was reported for this history: the table is known to be wrong
 
-    def remote_view(self, msgs):
+    def remote_view(self, raws):
         """Every message handed to the connection, as a remote peer would decode it."""
         from txdbus import message
-        out = []
-        for m in msgs:
-            out.append(message.parseMessage(m.rawMessage, []))
-        return out
+        return [message.parseMessage(r, []) for r in raws]
 
-    def payload_of(self, props):
-        """Identify the object a property dump belongs to: its ident if the whole dump is what that
-        object was given, else '?'."""
-        props = plain(props)
+    def dict_tokens(self, d):
+        """`{iface: props}` of a signal / reply -> 'iface=token' items; the token of (object, iface) when the
+        properties are what the harness gave that object for a declared interface ('?' otherwise)."""
+        d = plain(d)
+        ident = None
         try:
-            ident = props[ID_IFACE]['ident']
+            ident = d[ID_IFACE]['ident']
         except Exception:
-            return '?'
+            pass
         reg = self.registry.get(ident)
-        if reg is None or reg[2] != props:
-            return '?'
-        return str(ident)
+        items = []
+        for name, props in d.items():
+            ok = reg is not None and (name not in reg[2] or reg[2][name] == props)
+            items.append('%s=%s' % (hx(name), token(ident, name) if ok else '?'))
+        return ','.join(items) if items else '[]'
 
     # -- API calls
-    def export(self, path, kind, vals):
+    def make(self, path, kind, vals):
         cls = classes()[kind][0]
         ident = self.next_ident
         self.next_ident += 1
         obj = cls(path, ident, vals)
         self.objs[ident] = obj
-        self.registry[ident] = (kind, path, expected_props(kind, ident, vals))
-        self.conn.take()
+        names = [i.name for i in obj.getInterfaces()]      # the IDBusObject API defines "its interfaces"
+        self.registry[ident] = (kind, path, expected_props(kind, ident, vals), names, sendable(kind, ident, vals))
+        return ident
+
+    def export_ident(self, ident):
+        obj = self.objs[ident]
+        path = self.registry[ident][1]
+        self.take()
         try:
-            self.h.exportObject(obj)
+            self.api.exportObject(obj)
             exc = None
         except Exception as e:       # noqa
             exc = type(e).__name__
-        sent = self.remote_view(self.conn.take())
-        self.exported[path] = ident
+        sent = self.remote_view(self.take())
+        if self.registry[ident][4]:
+            self.exported[path] = ident          # a failed export call implies nothing
         return ident, exc, sent
 
     def unexport(self, path):
-        self.conn.take()
+        self.take()
         try:
-            self.h.unexportObject(path)
+            self.api.unexportObject(path)
             exc = None
         except Exception as e:       # noqa
             exc = type(e).__name__
-        sent = self.remote_view(self.conn.take())
+        sent = self.remote_view(self.take())
         was = self.exported.pop(path, None)
         return was, exc, sent
 
@@ -277,30 +364,35 @@ class World:
                 obj._items = ['item'] * ((step_no + ident) % 3)
 
     def call(self, path, iface, member, signature=None, body=None):
+        """-> (exception type name or None, replies as seen remotely)"""
         from txdbus import message
-        self.serial += 1
         m = message.MethodCallMessage(path, member, interface=iface, destination=FakeConn.busName,
                                       signature=signature, body=body)
-        pm = message.parseMessage(m.rawMessage, [])
-        pm.sender = ':1.7'
-        self.conn.take()
-        self.h.handleMethodCallMessage(pm)
-        return self.remote_view(self.conn.take())
+        self.take()
+        exc = None
+        try:
+            if self.client:
+                self.proto.rawDBusMessageReceived(m.rawMessage)
+            else:
+                pm = message.parseMessage(m.rawMessage, [])
+                pm.sender = ':1.7'
+                self.h.handleMethodCallMessage(pm)
+        except Exception as e:       # noqa
+            exc = type(e).__name__
+        return exc, self.remote_view(self.take())
 
 
 def canon_signals(world, exc, sent):
+    """One line per API call: 'raised' (whatever the exception type) when it raised and sent nothing."""
     from txdbus import message
-    if exc == 'KeyError' and not sent:
-        return 'keyerror'
     if exc is not None:
-        return 'exc:%s:%d' % (exc, len(sent))
+        return 'raised' if not sent else 'raised+sent:%d' % len(sent)
     parts = []
     for m in sent:
         if not isinstance(m, message.SignalMessage) or m.interface != 'org.freedesktop.DBus.ObjectManager':
             parts.append('other:%s' % type(m).__name__)
         elif m.member == 'InterfacesAdded' and m.signature == 'sa{sa{sv}}':
-            parts.append('added %s %s %s %s' % (hx(m.path), hx(m.body[0]), world.payload_of(m.body[1]),
-                                                strs(list(m.body[1].keys()))))
+            parts.append('added %s %s %s' % (hx(m.path), hx(m.body[0]), world.dict_tokens(m.body[1])))
         elif m.member == 'InterfacesRemoved' and m.signature == 'sas':
             parts.append('removed %s %s %s' % (hx(m.path), hx(m.body[0]), strs(list(m.body[1]))))
         else:
@@ -316,44 +408,50 @@ def parse_intro(xml):
     return root.get('name'), ifaces, kids
 
 
-def observe(world, kind, path, sent):
-    """Canonical line (driver format) + structured observation for the oracle."""
+def observe(world, kind, path, exc, sent):
+    """Canonical line (driver format) + structured observation for the oracle.  Error replies are
+    identified by their NAME only (texts are free), replies to ordinary calls other than whoami only
+    as 'the call went on to the object'."""
     from txdbus import message
     obs = {'n': len(sent)}
+    if exc is not None:
+        obs['raised'] = exc
+        return 'raised', obs
     if len(sent) != 1:
         return 'replies=%d' % len(sent), obs
     r = sent[0]
     if isinstance(r, message.ErrorMessage):
         obs['error'] = r.error_name
         obs['text'] = r.body[0] if r.body else None
-        if r.error_name == UNKNOWN_OBJECT and r.body == ['%s is not an object provided by this process.' % path]:
-            return 'unknown ' + hx(path), obs
-        return 'error:%s' % r.error_name, obs
+        if r.error_name == UNKNOWN_OBJECT:
+            return 'error %s %s' % (hx(r.error_name), hx(path)), obs
+        if kind == 'managed' or kind == 'introspect' or kind == 'ping':
+            return 'error %s' % hx(r.error_name), obs
+        return 'dispatch', obs                 # an error produced by method dispatch (C10)
     if not isinstance(r, message.MethodReturnMessage):
         return 'other:%s' % type(r).__name__, obs
     if kind == 'ping':
         obs['pong'] = True
-        return ('pong' if not r.body else 'return:%r' % (r.body,)), obs
+        return ('pong' if not r.body else 'return'), obs
     if kind == 'introspect':
         name, ifaces, kids = parse_intro(r.body[0])
         obs.update(node=name, ifaces=ifaces, kids=kids)
-        if ifaces[-3:] == BUILTIN:
-            shown = strs(ifaces[:-3])
-        elif not ifaces:
-            shown = 'none'
-        else:
-            shown = 'odd:' + strs(ifaces)
+        own = [n for n in ifaces if n not in BUILTIN]
+        shown = strs(own) if any(n in BUILTIN for n in ifaces) or own else 'none'
         return 'intro %s %s' % (shown, strs(kids)), obs
     if kind == 'managed':
         d = r.body[0]
         obs['managed'] = plain(d)
-        ents = ['%s:%s:%s' % (hx(k), world.payload_of(v), strs(list(v.keys()))) for k, v in d.items()]
+        ents = ['%s:%s' % (hx(k), world.dict_tokens(v)) for k, v in d.items()]
         return 'managed ' + (';'.join(ents) if ents else '[]'), obs
-    # ordinary
     obs['ret'] = plain(r.body)
-    if kind == 'ordinary':
-        return 'dispatch %s' % (r.body[0] if r.body else '?'), obs
-    return 'return', obs
+    if kind == 'whoami':
+        try:
+            ident = int(r.body[0])
+            return 'dispatch %d' % token(ident, world.registry[ident][3][0]), obs
+        except Exception:
+            return 'dispatch ?', obs
+    return 'dispatch', obs
 
 
 # --------------------------------------------------------------------------- the oracle (property statement)
@@ -375,9 +473,26 @@ def spec_below(p, exported):
     return sorted(q for q in exported if strictly_below(p, q))
 
 
+def content_ok(reg, got):
+    """`got` = {iface: props} reported for the object `reg`: exactly the interfaces getInterfaces() names,
+    among them every interface the harness declared, each declared one with exactly its readable properties."""
+    kind, _, props, names, _ = reg
+    if set(got.keys()) != set(names):
+        return False
+    if not set(classes()[kind][1]) <= set(got.keys()):
+        return False
+    return all(got[i] == props[i] for i in props)
+
+
 def judge_query(ctx, world, hist, step_no, kind, path, obs, call_desc):
+    if world.tainted:
+        return
     exported = world.exported
     inp = {'universe': hist['universe'], 'ops': hist['ops'][:step_no], 'query': [kind, path] + call_desc}
+    if 'raised' in obs:
+        ctx.violation('call-raises', 'handleMethodCallMessage raises instead of answering (%s)' % obs['raised'],
+                      inp, observed=obs, expected='one reply')
+        return
     is_unknown = obs.get('n') == 1 and obs.get('error') == UNKNOWN_OBJECT
     if kind == 'introspect':
         kids_spec = spec_children(path, exported)
@@ -433,12 +548,12 @@ def judge_query(ctx, world, hist, step_no, kind, path, obs, call_desc):
             return
         for k in below:
             reg = world.registry[exported[k]]
-            if got[k] != reg[2]:
+            if not content_ok(reg, got[k]):
                 ctx.violation('managed-objects-content',
                               'an object reported by GetManagedObjects lacks interfaces or readable properties',
-                              inp, observed={k: got[k]}, expected={k: reg[2]})
+                              inp, observed={k: got[k]}, expected={k: reg[2], 'interfaces': reg[3]})
                 return
-    elif kind in ('ordinary', 'ordinary-noiface', 'ordinary-nomethod'):
+    elif kind in ('whoami', 'ordinary'):
         if path not in exported:
             if not is_unknown:
                 ctx.violation('call-unexported-not-unknownobject',
@@ -449,28 +564,47 @@ def judge_query(ctx, world, hist, step_no, kind, path, obs, call_desc):
                 ctx.violation('call-exported-unknownobject',
                               'a call to an exported path is answered UnknownObject',
                               inp, observed=obs, expected='the call reaches the object')
-            elif kind != 'ordinary-nomethod' and obs.get('ret') != [str(exported[path])]:
+            elif kind == 'whoami' and obs.get('ret') != [str(exported[path])]:
                 ctx.violation('call-reaches-wrong-object',
                               'a call to an exported path is not answered by the object exported there most recently',
                               inp, observed=obs, expected=[str(exported[path])])
 
 
 def judge_step(ctx, world, hist, step_no, op, result):
-    """Each export / unexport announces itself with exactly one signal naming path and interfaces."""
+    """Each export / unexport announces itself with exactly one signal naming path and interfaces; a call
+    that fails implies nothing: it is silent and without effect."""
     from txdbus import message
+    if world.tainted:
+        return
     inp = {'universe': hist['universe'], 'ops': hist['ops'][:step_no], 'query': ['signals']}
     ident_or_was, exc, sent = result
-    if op[0] == 'export':
-        want_if = sorted(set(classes()[op[2]][1]))
+    if op[0] in ('export', 'reexport'):
+        reg = world.registry[ident_or_was]
+        if not reg[4]:
+            # the object's readable properties cannot be sent: no InterfacesAdded can exist, so the export
+            # cannot have happened - the call has to fail and the object must not be visible
+            if sent:
+                ctx.violation('failed-export-announces', 'exportObject of an object whose properties cannot be sent sends a message',
+                              inp, observed=canon_signals(world, exc, sent), expected='no message')
+                world.tainted = True
+                return
+            _, rep = world.call(reg[1], ID_IFACE, 'whoami')
+            if len(rep) == 1 and isinstance(rep[0], message.MethodReturnMessage) and rep[0].body == [str(ident_or_was)]:
+                ctx.violation('failed-export-stays-visible',
+                              'exportObject raised and announced nothing, yet the object answers calls at its path',
+                              inp, observed={'raised': exc, 'sent': 0, 'whoami': rep[0].body}, expected='not exported')
+                world.tainted = True
+            return
+        want = set(reg[3])
         ok = (exc is None and len(sent) == 1 and isinstance(sent[0], message.SignalMessage)
               and sent[0].member == 'InterfacesAdded'
               and sent[0].interface == 'org.freedesktop.DBus.ObjectManager'
-              and len(sent[0].body) == 2 and sent[0].body[0] == op[1]
-              and sorted(sent[0].body[1].keys()) == want_if)
+              and len(sent[0].body) == 2 and sent[0].body[0] == reg[1]
+              and set(sent[0].body[1].keys()) == want and set(classes()[reg[0]][1]) <= want)
         if not ok:
             ctx.violation('export-signal-wrong',
                           'exportObject does not announce itself with one InterfacesAdded naming the path and the interfaces',
-                          inp, observed=canon_signals(world, exc, sent), expected=['InterfacesAdded', op[1], want_if])
+                          inp, observed=canon_signals(world, exc, sent), expected=['InterfacesAdded', reg[1], sorted(want)])
     else:
         if ident_or_was is None:
             # unexporting a path that is not exported: nothing was unexported, nothing may be announced
@@ -479,21 +613,23 @@ def judge_step(ctx, world, hist, step_no, op, result):
                               'unexportObject of a path that is not exported sends a message',
                               inp, observed=canon_signals(world, exc, sent), expected='no message')
             return
-        want_if = sorted(set(classes()[world.registry[ident_or_was][0]][1]))
+        want = set(world.registry[ident_or_was][3])
         ok = (exc is None and len(sent) == 1 and isinstance(sent[0], message.SignalMessage)
               and sent[0].member == 'InterfacesRemoved'
               and sent[0].interface == 'org.freedesktop.DBus.ObjectManager'
               and len(sent[0].body) == 2 and sent[0].body[0] == op[1]
-              and sorted(set(sent[0].body[1])) == want_if)
+              and set(sent[0].body[1]) == want)
         if not ok:
             ctx.violation('unexport-signal-wrong',
                           'unexportObject does not announce itself with one InterfacesRemoved naming the path and the interfaces',
-                          inp, observed=canon_signals(world, exc, sent), expected=['InterfacesRemoved', op[1], want_if])
+                          inp, observed=canon_signals(world, exc, sent), expected=['InterfacesRemoved', op[1], sorted(want)])
 
 
 # --------------------------------------------------------------------------- generators
-ELEMS = ['a', 'b', 'bc', 'b_c', 'c', 'ab', 'A', '_', '0', 'a0', 'org', 'x']
+ELEMS = ['a', 'b', 'bc', 'b_c', 'c', 'ab', 'A', '_', '0', 'a0', 'org', 'x', 'B']
 FIXED_UNIVERSE = ['/', '/a', '/a/b', '/a/bc', '/a/b_c', '/a/b/c', '/a/b/c/d', '/ab', '/a/b/cd', '/b', '/a/bc/c']
+# the queried text re-occurring deeper (/b/c/b/d seen from /b and /b/c), paths differing by case only
+FIXED_UNIVERSE_2 = ['/', '/b', '/b/c', '/b/c/b', '/b/c/b/d', '/b/d', '/b/b', '/A', '/A/b', '/a', '/a/b', '/a/B', '/a/b/a/b']
 
 
 def valid_path(p):
@@ -506,7 +642,7 @@ def valid_path(p):
 
 def neighbours(universe):
     """Non-exported neighbours worth asking about: parents, grandparents, textual variations
-    (a character more, a character less), a child below, the root."""
+    (a character more, a character less, the other case), a child below, the root."""
     out = set(['/'])
     for p in universe:
         e = elems(p)
@@ -518,24 +654,39 @@ def neighbours(universe):
             out.add(p[:-1])
             out.add(p + '/zz')
             out.add('/' + p[1:].replace('/', '_'))
+            out.add(p.swapcase())
         else:
             out.add('/zz')
     return sorted(q for q in out if valid_path(q) and q not in universe)
 
 
+BAD = {'label': [None, 'a\0b', '\ud800'], 'level': ['zz', 2 ** 40, None], 'count': ['zz', 2 ** 70]}
+
+
 def gen_vals(rng):
-    return {'label': rng.choice(['', 'x', 'hello', 'café', 'a/b']), 'secret': rng.randrange(-5, 5),
-            'items': rng.choice([0, 0, 1, 3]),
-            'level': rng.choice([0, 1, -1, 2 ** 31 - 1]), 'count': rng.choice([0, 7, -2 ** 40, 2 ** 62])}
+    v = {'label': rng.choice(['', 'x', 'hello', 'café', 'a/b']), 'secret': rng.randrange(-5, 5),
+         'items': rng.choice([0, 0, 1, 3]),
+         'level': rng.choice([0, 1, -1, 2 ** 31 - 1]), 'count': rng.choice([0, 7, -2 ** 40, 2 ** 62])}
+    r = rng.random()
+    if r < 0.10:                       # a readable property whose value does not fit its declared type
+        p = rng.choice(sorted(BAD))
+        v[p] = rng.choice(BAD[p])
+    elif r < 0.14:                     # a WRITE-ONLY property with such a value: never read, must not matter
+        v['secret'] = rng.choice(['zz', 2 ** 40, None])
+    return v
 
 
 def gen_universe(rng):
-    shape = rng.choice(['tree', 'prefix', 'deep', 'root', 'flat'])
+    shape = rng.choice(['tree', 'prefix', 'deep', 'root', 'flat', 'case', 'recur'])
     alpha = rng.sample(ELEMS, rng.randrange(2, 5))
     if shape in ('prefix', 'root'):
         alpha = list(dict.fromkeys(alpha + ['b', 'bc', 'b_c']))
+    if shape == 'case':
+        alpha = list(dict.fromkeys(alpha[:2] + ['a', 'A', 'b', 'B']))
+    if shape == 'recur':
+        alpha = alpha[:2]                             # few names: the same element recurs along a path
     paths = set()
-    if shape == 'deep':
+    if shape in ('deep', 'recur'):
         chain = [rng.choice(alpha) for _ in range(rng.randrange(5, 12))]
         for i in sorted(rng.sample(range(1, len(chain) + 1), rng.randrange(2, 5))):
             paths.add('/' + '/'.join(chain[:i]))
@@ -556,7 +707,7 @@ def gen_universe(rng):
 
 def gen_history(rng, universe, length):
     ops = []
-    live = set()
+    live = {}                                                        # path -> kind
     burst = rng.randrange(0, max(2, (len(universe) * 3) // 4))       # fill the tree first, then churn
     for i in range(length):
         r = rng.random()
@@ -565,42 +716,71 @@ def gen_history(rng, universe, length):
         if live and r < 0.22:
             p = rng.choice(sorted(live))
             ops.append(['unexport', p])
-            live.discard(p)
+            del live[p]
         elif r < 0.27:
             p = rng.choice(universe)                      # possibly not exported
             ops.append(['unexport', p])
-            live.discard(p)
-        elif live and r < 0.35:
-            p = rng.choice(sorted(live))                  # export over an existing object
-            ops.append(['export', p, rng.choice(KINDS), gen_vals(rng)])
+            live.pop(p, None)
+        elif live and r < 0.37:
+            p = rng.choice(sorted(live))                  # export over an existing object, another class
+            kind = rng.choice([k for k in KINDS if k != live[p]])
+            vals = gen_vals(rng)
+            ops.append(['export', p, kind, vals])
+            if sendable(kind, 0, vals):
+                live[p] = kind
+        elif live and r < 0.43:
+            ops.append(['reexport', rng.choice(sorted(live))])       # the SAME instance exported again
         else:
             dead = [p for p in universe if p not in live]
             p = rng.choice(dead) if dead and rng.random() < 0.8 else rng.choice(universe)
-            ops.append(['export', p, rng.choice(KINDS), gen_vals(rng)])
-            live.add(p)
+            kind = rng.choice(KINDS)
+            vals = gen_vals(rng)
+            ops.append(['export', p, kind, vals])
+            if sendable(kind, 0, vals):
+                live[p] = kind
     return ops
 
 
 # --------------------------------------------------------------------------- running one history
-QUERY_KINDS = ['introspect', 'managed', 'ordinary']
+ID_LIKE = [(ID_IFACE, 'nope'), (ID_IFACE, 'Ping'), (ID_IFACE, 'Introspect'), (ID_IFACE, 'GetManagedObjects'),
+           (None, 'Ping'), (None, 'Introspect'), ('org.freedesktop.DBus.Peer', 'Introspect'),
+           ('org.freedesktop.DBus.Introspectable', 'Ping'), ('org.freedesktop.DBus.ObjectManager', 'Introspect'),
+           ('org.freedesktop.DBus.Properties', 'GetManagedObjects')]
 
 
-def run_history(ctx, stream, hist, lines, expect, judge=True, extra_every=7):
+def call_line(iface, member, path):
+    return 'call %s %s %s' % (hx(iface) if iface is not None else 'none', hx(member), hx(path))
+
+
+def export_line(world, ident):
+    kind, path, _, names, ok = world.registry[ident]
+    return 'export %s %d %s' % (hx(path), 1 if ok else 0, ' '.join('%s=%d' % (hx(n), token(ident, n)) for n in names))
+
+
+def run_history(ctx, stream, hist, lines, expect, judge=True, client=False):
     """Apply hist on the real code, query everything after every step; append the driver lines to
     `lines` and (stream, hist, step, what, canonical implementation line) to `expect`."""
-    world = World()
+    world = World(client=client)
     universe = hist['universe']
     queries = list(universe) + list(hist.get('neighbours', []))
     lines.append('reset')
     expect.append((stream, hist, 0, ['reset'], 'ok'))
     nonempty_answers = 0
+    rot = 0
     for step_no, op in enumerate(hist['ops'], 1):
         if op[0] == 'export':
-            res = world.export(op[1], op[2], op[3])
-            names = classes()[op[2]][1]
-            lines.append('export %s %d %s' % (hx(op[1]), res[0], ' '.join(hx(n) for n in names)))
-            ctx.stat('op=export')
+            ident = world.make(op[1], op[2], op[3])
+            res = world.export_ident(ident)
+            lines.append(export_line(world, ident))
+            ctx.stat('op=export' + ('' if world.registry[ident][4] else '-unsendable'))
             ctx.stat('kind=' + op[2])
+        elif op[0] == 'reexport':
+            ident = world.exported.get(op[1])
+            if ident is None:                              # nothing there (e.g. in a shrunk replay): skip the step
+                continue
+            res = world.export_ident(ident)
+            lines.append(export_line(world, ident))
+            ctx.stat('op=reexport-same-instance')
         else:
             res = world.unexport(op[1])
             lines.append('unexport ' + hx(op[1]))
@@ -610,42 +790,47 @@ def run_history(ctx, stream, hist, lines, expect, judge=True, extra_every=7):
             judge_step(ctx, world, hist, step_no, op, res)
         world.churn(step_no)
         ctx.stat('falsy-exported=%d' % min(3, sum(1 for i in world.exported.values() if not world.objs[i])))
-        # dict order of the table itself (insertion order is what the child order shows)
+        # the table itself
         lines.append('keys')
         expect.append((stream, hist, step_no, ['keys'], 'keys ' + strs(list(world.h.exports.keys()))))
         ctx.stat('exported=%02d' % min(len(world.exported), 12))
         for qi, path in enumerate(queries):
-            for kind in QUERY_KINDS:
-                if kind == 'introspect':
-                    sent = world.call(path, 'org.freedesktop.DBus.Introspectable', 'Introspect')
-                elif kind == 'managed':
-                    sent = world.call(path, 'org.freedesktop.DBus.ObjectManager', 'GetManagedObjects')
-                else:
-                    sent = world.call(path, ID_IFACE, 'whoami')
-                line, obs = observe(world, kind, path, sent)
-                lines.append('call %s %s' % (kind, hx(path)))
+            for kind, iface, member in (('introspect', BUILTIN[0], 'Introspect'),
+                                        ('managed', BUILTIN[2], 'GetManagedObjects'),
+                                        ('whoami', ID_IFACE, 'whoami')):
+                exc, sent = world.call(path, iface, member)
+                line, obs = observe(world, kind, path, exc, sent)
+                lines.append(call_line(iface, member, path))
                 expect.append((stream, hist, step_no, [kind, path], line))
-                ctx.stat('answer=%s/%s' % (kind, line.split(' ', 1)[0].split(':', 1)[0]))
+                ctx.stat('answer=%s/%s' % (kind, line.split(' ', 1)[0]))
                 if world.exported:
                     nonempty_answers += 1
                 if judge:
                     judge_query(ctx, world, hist, step_no, kind, path, obs, [])
-            # a few more shapes of ordinary calls and Ping, judged by the oracle / compared as well
-            if (qi + step_no) % extra_every == 0:
-                sent = world.call(path, None, 'whoami')
-                line, obs = observe(world, 'ordinary', path, sent)
-                lines.append('call ordinary ' + hx(path))
-                expect.append((stream, hist, step_no, ['ordinary-noiface', path], line))
+            # a rotating part of the paths: other shapes of ordinary calls (no interface, unknown member,
+            # members NAMED like a built-in on other interfaces) and Ping
+            if (qi + step_no) % 5 == 0:
+                exc, sent = world.call(path, None, 'whoami')
+                line, obs = observe(world, 'whoami', path, exc, sent)
+                lines.append(call_line(None, 'whoami', path))
+                expect.append((stream, hist, step_no, ['whoami-noiface', path], line))
                 if judge:
-                    judge_query(ctx, world, hist, step_no, 'ordinary-noiface', path, obs, [])
-                sent = world.call(path, ID_IFACE, 'nope', signature='s', body=['x'])
-                _, obs = observe(world, 'ordinary-nomethod', path, sent)
+                    judge_query(ctx, world, hist, step_no, 'whoami', path, obs, ['no interface'])
+                iface, member = ID_LIKE[rot % len(ID_LIKE)]
+                rot += 1
+                exc, sent = world.call(path, iface, member)
+                line, obs = observe(world, 'ordinary', path, exc, sent)
+                lines.append(call_line(iface, member, path))
+                expect.append((stream, hist, step_no, ['ordinary', path, iface, member], line))
+                ctx.stat('ordinary=%s.%s' % ((iface or '').rsplit('.', 1)[-1], member))
                 if judge:
-                    judge_query(ctx, world, hist, step_no, 'ordinary-nomethod', path, obs, [])
-                sent = world.call(path, 'org.freedesktop.DBus.Peer', 'Ping')
-                line, obs = observe(world, 'ping', path, sent)
-                lines.append('call ping ' + hx(path))
+                    judge_query(ctx, world, hist, step_no, 'ordinary', path, obs, [iface, member])
+                exc, sent = world.call(path, BUILTIN[1], 'Ping')
+                line, obs = observe(world, 'ping', path, exc, sent)
+                lines.append(call_line(BUILTIN[1], 'Ping', path))
                 expect.append((stream, hist, step_no, ['ping', path], line))
+                if judge and 'raised' in obs:
+                    judge_query(ctx, world, hist, step_no, 'ping', path, obs, [])
     ctx.impl_trace()
     return nonempty_answers
 
@@ -653,7 +838,8 @@ def run_history(ctx, stream, hist, lines, expect, judge=True, extra_every=7):
 def canon_line(line):
     """Order-insensitive form of a driver / implementation line: the theorems speak about sets
     (plus "no duplicates"), so lists are compared as sorted multisets - child names, table keys,
-    interface names, reply entries.  Duplicates survive the sorting."""
+    interface names, reply entries.  Duplicates survive the sorting.  The model tells which object a
+    call is dispatched to; for calls other than whoami the implementation line only says 'dispatch'."""
     toks = []
     for tok in line.split(' '):
         ents = []
@@ -669,6 +855,8 @@ def compare(ctx, lines, expect):
         return
     seen = set()
     for (stream, hist, step_no, what, impl), m in zip(expect, out):
+        if impl == 'dispatch' and m.startswith('dispatch '):
+            m = 'dispatch'
         if canon_line(m) != canon_line(impl):
             key = (id(hist), what[0])
             if key in seen:
@@ -696,10 +884,13 @@ def make_hist(universe, ops, rng=None):
 
 
 def enumerated(max_len):
-    """All histories up to max_len over a tiny universe with the root and a prefix-sharing pair."""
+    """All histories up to max_len over a tiny universe with the root and a prefix-sharing pair; one of the
+    exported objects cannot be announced."""
     uni = ['/', '/a/b', '/a/bc', '/a/b/c']
     vals = {'label': 'x', 'secret': 0, 'level': 1, 'count': 7}
-    alphabet = [['export', p, ['KAB', 'KLen', 'KFalse', 'KA'][i % 4], vals] for i, p in enumerate(uni)] + [['unexport', p] for p in uni]
+    bad = dict(vals, level='zz')
+    alphabet = ([['export', p, ['KAB', 'KLen', 'KFalse', 'KA'][i % 4], vals] for i, p in enumerate(uni)]
+                + [['unexport', p] for p in uni] + [['export', '/a/b', 'KA', bad], ['reexport', '/a/bc']])
 
     def rec(prefix, n):
         if n == 0:
@@ -714,13 +905,13 @@ def enumerated(max_len):
             yield make_hist(uni, ops)
 
 
-def run_batch(ctx, stream, hists, judge=True):
+def run_batch(ctx, stream, hists, judge=True, client=False):
     lines, expect = [], []
     for hist in hists:
         if ctx.time_left() < 5:
             ctx.note('time budget reached in stream %s' % stream)
             break
-        ne = run_history(ctx, stream, hist, lines, expect, judge=judge)
+        ne = run_history(ctx, stream, hist, lines, expect, judge=judge, client=client)
         ctx.case(stream, sample={'universe': hist['universe'], 'ops': hist['ops']},
                  nontrivial=ne > 0 and any(o[0] == 'export' for o in hist['ops']))
         ctx.stat('history-len=%d' % (len(hist['ops']) // 5 * 5))
@@ -739,11 +930,13 @@ def run(ctx):
         run_batch(ctx, 'history-fixed-universe', corpus_h)
 
     rng = ctx.rng
-    # ---- the fixed universe with parents, children, grandchildren, prefix-sharing siblings, the root
+    # ---- the fixed universes: parents, children, grandchildren, prefix-sharing siblings, the root,
+    #      recurring elements (/b/c/b/d), case variants (/a/b, /A/b, /a/B)
     n = ctx.scale(quick=20, thorough=160)
     hs = []
     for i in range(n):
-        uni = FIXED_UNIVERSE if i % 2 == 0 else sorted(rng.sample(FIXED_UNIVERSE, rng.randrange(4, 9)) + (['/'] if i % 4 == 1 else []))
+        base = FIXED_UNIVERSE if i % 2 == 0 else FIXED_UNIVERSE_2
+        uni = base if i % 4 < 2 else sorted(rng.sample(base, rng.randrange(4, 9)) + (['/'] if i % 8 < 4 else []))
         uni = sorted(set(uni))
         hs.append(make_hist(uni, gen_history(rng, uni, rng.randrange(6, 22)), rng))
     run_batch(ctx, 'history-fixed-universe', hs)
@@ -760,6 +953,15 @@ def run(ctx):
     # ---- bounded-exhaustive small histories
     max_len = 2 if ctx.tier == 'quick' and not ctx.widen else 3
     run_batch(ctx, 'history-enumerated', list(enumerated(max_len)))
+
+    # ---- the same through a real DBusClientConnection (exportObject / unexportObject / received bytes)
+    n = ctx.scale(quick=4, thorough=30)
+    hs = []
+    for i in range(n):
+        uni = FIXED_UNIVERSE if i % 2 == 0 else FIXED_UNIVERSE_2
+        uni = sorted(set(rng.sample(uni, 6) + ['/']))
+        hs.append(make_hist(uni, gen_history(rng, uni, rng.randrange(6, 16)), rng))
+    run_batch(ctx, 'history-client-connection', hs, client=True)
 
 
 def replay(ctx, data):
